@@ -109,6 +109,7 @@ func c06Trees(r *Rand, l int, ioOnly bool) []nodeJ {
 }
 
 func c06Gen(r *Rand, tier string, emit func(op any)) {
+	c06GenFail(r, tier, emit)
 	fes := allFrontEnds()
 	thorough := tier == "thorough"
 	subBudget := 140
@@ -287,6 +288,9 @@ func c06Child() {
 func c06Exec(raw json.RawMessage) Result {
 	var op c06Op
 	unmarshal(raw, &op)
+	if op.K == "failterm" {
+		return c06ExecFail(raw)
+	}
 	l := c06Level(&op)
 	impl := map[string]any{}
 	var seq []string
